@@ -86,8 +86,9 @@ def main():
                 r = sh("./nvs.sh check %s" % q, cwd=VERIF)
                 viol = [l for l in r.stdout.splitlines() if l.startswith("VIOLATION")]
                 nv += len(viol)
-                if viol and (q != pid or not rules or any(("key " + x) in r.stdout for x in rules if x.startswith(pid))):
-                    hit = hit or q == pid
+                rules_pid = [x for x in rules if x.startswith(pid)]
+                if viol and q == pid and (not rules_pid or any(("key " + x) in r.stdout for x in rules_pid)):
+                    hit = True
             results.append((name, pid, "CAUGHT" if hit else "MISSED", nv))
             print("%-40s %s  %s (%d violations)" % (name, pid, "CAUGHT" if hit else "MISSED", nv), flush=True)
         except AssertionError as e:
